@@ -543,6 +543,9 @@ def limb32_bigint_pass(ctx, rng, res, n=160):
             if I.startswith("panic"):
                 if op == "mulassign" and m == "panic":
                     continue
+                if cap is None and "assert" in I and m not in ("none", "ctor-none") and \
+                        max(len(parse_l(m.split()[0])), len(parse_l(line.split()[2]))) > 125:
+                    continue        # HeapVec::set_len debug-asserts len <= BIGINT_LIMBS (known finding, DESIGN 9.6); Miri runs a debug build
                 res.viol.append(("panic-32bit-limbs", dict(case=line, cfg=c, target="i686", impl=I, model=m[:200])))
                 continue
             if I != m:
@@ -558,7 +561,7 @@ def limb32_bigint_pass(ctx, rng, res, n=160):
                     res.viol.append(("inexact-32bit-limbs", dict(case=line, cfg=c, target="i686", impl=I[:300], expected_nat=s[:200])))
                 if cap is not None and I != "-" and len(parse_l(I.split()[0])) > cap:
                     res.viol.append(("over-capacity-32bit-limbs", dict(case=line, cfg=c, target="i686", impl=I[:300])))
-            elif s is not None and I != s:
+            elif s is not None and op in ("compare", "hi64", "bit_length") and I != s:
                 res.viol.append(("wrong-32bit-limbs", dict(case=line, cfg=c, target="i686", impl=I, expected=s)))
         if ub is not None:
             if ub.get("is_ub"):
@@ -793,11 +796,13 @@ def parse_l(s):
 
 def run_C12(ctx, rng, tier, res, known):
     q = tier == "quick"
-    cases = gens.gen_bigint(rng, 12000 if q else 300000)
-    lines = [c[0] for c in cases]
+    all_cases = gens.gen_bigint(rng, 12000 if q else 300000) + gens.gen_bigint_huge(rng, 400 if q else 5000)
     cfgs = [c for c in ctx.cfgs if c in ("std", "std+alloc", "std+compact", "std+compact+alloc")]
     for c in cfgs:
         cap = None if "alloc" in c else 62
+        # astronomically large shift counts only on the fixed-capacity back-end
+        cases = all_cases if cap is not None else [x for x in all_cases if not x[1].startswith("L-huge")]
+        lines = [x[0] for x in cases]
         model = run_model(c, "release", lines)
         for p in ctx.profiles:
             impl = run_impl(c, p, lines)
@@ -814,10 +819,15 @@ def run_C12(ctx, rng, tier, res, known):
                     # only debug assertions on documented preconditions may panic (dbg) - the generator avoids them
                     if op == "mulassign" and m == "panic":
                         continue
-                    if cap is None and p == "dbg" and "assert" in I and m not in ("none", "ctor-none") and len(parse_l(m.split()[0])) > 62:
+                    if cap is None and p == "dbg" and "assert" in I and m not in ("none", "ctor-none") and \
+                            max(len(parse_l(m.split()[0])), len(parse_l(line.split()[2]))) > 62:
                         # HeapVec::set_len debug-asserts len <= 62: beyond the design capacity (outside C12's range)
                         continue
                     res.viol.append(("panic", dict(case=line, cfg=c, profile=p, impl=I, model=m)))
+                    continue
+                if cases[i][1].startswith("L-huge") and cap is not None and I != "none" and parse_l(line.split()[2]) not in ([], ):
+                    # a shift by an astronomically large count cannot fit 62 limbs (non-empty operand)
+                    res.viol.append(("accepted-beyond-capacity", dict(case=line, cfg=c, profile=p, impl=I[:300])))
                     continue
                 if I != m:
                     # heap shl_limbs relation: may answer none only when n + len > 62
@@ -874,9 +884,12 @@ def run_C13(ctx, rng, tier, res, known):
     # the known-finding witness (un-normalised operands)
     cases.append(("vh from:1,0;clone;from:2;cmp;eq", "H-unnormalized-witness"))
     cases.append(("vh from:1,0;clone;from:1;eq;cmp", "H-unnormalized-witness"))
-    lines = [c[0] for c in cases]
+    all_cases = cases + gens.gen_histories_huge(rng, 300 if q else 3000)
     cfgs = [c for c in ctx.cfgs if c in ("std", "std+alloc")]
     for c in cfgs:
+        # astronomically large resize targets only on the fixed-capacity back-end (the heap one would allocate)
+        cases = all_cases if "alloc" not in c else [x for x in all_cases if x[1] != "H-huge-resize"]
+        lines = [x[0] for x in cases]
         model = run_model(c, "release", lines)
         cap = None if "alloc" in c else 62
         for p in ctx.profiles:
